@@ -1,6 +1,7 @@
 import PqV.Lemmas.Page
 import PqV.Lemmas.KHybrid
 import PqV.Lemmas.Delta
+import PqV.Lemmas.KDeltaLoop
 /-!
 # C03 — valid flat Parquet files from any writer decode to exactly what they encode
 
@@ -114,5 +115,22 @@ theorem delta_bitpacked_28_ok :
      | .ok (vs, loc) => decide (vs = sample 28 8 ∧ loc = 28)
      | .error _ => false) = true := by
   decide +kernel
+
+/-- **DELTA_BINARY_PACKED pages from any writer, through the kernel**: the code-shaped model of
+    `delta_binary_unpack` returns what the specification decoder returns on every conforming stream
+    whose miniblock widths are ≤ 28 (INT32 and INT64, any block shape, any count the blocks cover, any
+    position in the page buffer).  Together with `delta_any_shape` (specification round trip) this
+    ties the kernel to the values a conforming writer encoded. -/
+theorem kernel_delta_any_stream (pre post : List Nat) (longval : Bool) (blockSize mpb cnt : Nat) (first : Int) (blocks : List Block)
+    (hbs : blockSize < 2 ^ 64) (hmpb64 : mpb < 2 ^ 64) (hfirst : okI64 first)
+    (hmpb : 1 ≤ mpb) (hvpm : 1 ≤ blockSize / mpb) (h8 : blockSize / mpb % 8 = 0) (hcnt1 : 1 ≤ cnt) (hcnt : cnt < 2 ^ 63)
+    (hblocks : ∀ b ∈ blocks, BlockOk (blockSize / mpb) mpb b)
+    (hroom : cnt ≤ blockSize / mpb * mpb * blocks.length)
+    (hbytes : ∀ b ∈ pre ++ encStreamP blockSize mpb cnt first blocks ++ post, b < 256) :
+    ∃ vals rest slots loc',
+      decodeDelta (if longval then 64 else 32) (encStreamP blockSize mpb cnt first blocks ++ post) = some (vals, rest) ∧
+      deltaBinaryUnpack (pre ++ encStreamP blockSize mpb cnt first blocks ++ post) pre.length cnt longval = .ok (slots, loc') ∧
+      slots.toList = vals.map (ofSigned (if longval then 64 else 32)) :=
+  deltaKernel_eq_spec pre post longval blockSize mpb cnt first blocks hbs hmpb64 hfirst hmpb hvpm h8 hcnt1 hcnt hblocks hroom hbytes
 
 end PqV.Props.C03
